@@ -1,12 +1,22 @@
 import Lean.Data.Json
 import Drivers.Util
+import Drivers.Alloc
+import Drivers.Ctx
 import Drivers.Dbl
+import Drivers.Retry
+import Drivers.Stats
+import Drivers.Throughput
 import Drivers.Versions
 open Lean
 
 def dispatch (m op : String) (a : Json) : Except String Json :=
   match m with
+  | "alloc" => Drivers.Alloc.handle op a
+  | "ctx" => Drivers.Ctx.handle op a
   | "dbl" => Drivers.Dbl.handle op a
+  | "retry" => Drivers.Retry.handle op a
+  | "stats" => Drivers.Stats.handle op a
+  | "throughput" => Drivers.Throughput.handle op a
   | "versions" => Drivers.Versions.handle op a
   | "ping" => .ok (DUtil.ok (Json.str "pong"))
   | _ => .error s!"unknown model {m}"
